@@ -307,6 +307,11 @@ pub fn minimise(replay: &Json) -> Json {
             c.setup.fns.remove(i);
             candidates.push(c);
         }
+        if case.setup.aging > 0 {
+            let mut c = case.clone();
+            c.setup.aging = 0;
+            candidates.push(c);
+        }
         if case.entry == Entry::Str {
             let mut c = case.clone();
             c.entry = Entry::Tree;
@@ -342,7 +347,7 @@ pub fn minimise(replay: &Json) -> Json {
                 delegate: &mut d,
             };
             if let Some(f) = check_case(&cand, prop, &mut cx, None, Some(&best.faults)) {
-                if same(&f, &best) && (cand.weight() < case.weight() || f.faults.len() < best.faults.len() || cand.form != case.form || cand.entry != case.entry || cand.typed != case.typed) {
+                if same(&f, &best) && (cand.weight() < case.weight() || f.faults.len() < best.faults.len() || cand.form != case.form || cand.entry != case.entry || cand.typed != case.typed || cand.setup.aging != case.setup.aging) {
                     case = cand;
                     best = f;
                     progress = true;
